@@ -516,6 +516,31 @@ class Sim:
         return t
 
 
+def run_callable(sim, tag, fn, faults=None):
+    """Run fn() inside the simulated world with a fault plan; -> (status, value, error message)."""
+    sim.fs.job_tag = tag
+    sim.plan_job_faults(faults)
+    sim.log.add("JOB_START", spec=str(tag), iso3="*")
+    status, value, err = "ok", None, None
+    try:
+        with world.quiet():
+            ctxm = world.AbortInjector(sim._abort_at, sim.log) if sim._abort_at else _Null()
+            with ctxm:
+                value = fn()
+    except world.SimAbort:
+        status = "aborted"
+    except SystemExit as e:
+        status, err = "raised:SystemExit", repr(e.code)
+    except BaseException as e:  # noqa
+        status, err = "raised:" + type(e).__name__, str(e)[:300]
+    sim.solver.plan = {}
+    sim.fs.plan = {}
+    sim.tables.plan = {}
+    sim.clock.script = {}
+    sim.log.add("JOB_END", status=status, digest=None)
+    return status, value, err
+
+
 class _Null:
     def __enter__(self):
         return self
